@@ -51,6 +51,7 @@ public:
 private:
     Config config_;
     std::unordered_map<std::string, ChunkRecord> chunks_;
+    std::vector<ChunkId> expired_unreported_;  // dropped by a lookup that noticed the expiry; reported by the next sweep
     bool persistent_enabled_{false};
     bool wipe_on_expiry_{true};
     std::uint8_t wipe_passes_{1};
